@@ -98,8 +98,24 @@ def dCmp (a b : Int) : Ord3 :=
 def unorderedPair (a b : Int × Int) : Bool :=
   a.1 == NaN || b.1 == NaN || (a.1 == b.1 && (a.2 == NaN || b.2 == NaN))
 
+/-! ### key + payload elements (`KP` of harness/c20.cpp): a value `v` stands for the key `v / 2` and the payload `v % 2`;
+`<` looks at the key alone, `==` at key and payload (no `<=>`: the three-way comparison is the synthesised one).  The
+equivalence `<` induces is coarser than `==`: 2 and 3 are equivalent and not equal. -/
+def kpLt (a b : Int) : Bool := decide (a / 2 < b / 2)
+def kpEq (a b : Int) : Bool := a == b
+
+/-- the textbook one-liner `x.first < y.first || (x.first == y.first && x.second < y.second)`: NOT [pairs.spec] - the tie on
+    the first elements is decided by `==` instead of "neither is less" (`Props.pair_lt_via_eq_differs`,
+    `Props.pair_lt_via_eq_same_of_total`) -/
+def pairLtViaEq {α β : Type} (eq1 : α → α → Bool) (lt1 : α → α → Bool) (lt2 : β → β → Bool) (a b : α × β) : Bool :=
+  lt1 a.1 b.1 || (eq1 a.1 b.1 && lt2 a.2 b.2)
+
 /-- tuples of the same arity are equal iff all elements are -/
 def tupleEq (a b : List Int) : Bool := decide (a = b)
+
+/-- [tuple.rel] `t == u` for an arbitrary element `==` (no lawfulness assumed): true iff `get<i>(t) == get<i>(u)` for
+    every `i` (no element: true) -/
+def tupleEqBy {α : Type} (eq : α → α → Bool) (a b : List α) : Bool := (a.zip b).all (fun p => eq p.1 p.2)
 
 /-! ## tuple_cat / apply / make_from_tuple -/
 
